@@ -433,7 +433,10 @@ Definition v2_check_stats (s : state) (app asset : Z) : outcome state :=
       | None => Ok s
       | Some x =>
           obind (if (x <=? cl_debt_thr cl - cl_lot cl) && af_debt f
-                 then lift s (set_auction_mapping (cs s) app asset (with_active f true))
+                 then (* DebtTokenAmount returns sdk.Coin{} pairs when CollectorAssetId / SecondaryAssetId name
+                         no asset; CreateLockedVault then panics in sdk.NewCoin("", ...) *)
+                      if negb (has_asset (cs s) (cl_asset cl) && has_asset (cs s) (cl_secondary cl)) then Panic
+                      else lift s (set_auction_mapping (cs s) app asset (with_active f true))
                  else Ok s) (fun s1 =>
           if (x >=? cl_surplus_thr cl + cl_lot cl) && af_surplus f then
             (* SurplusTokenAmount returns sdk.Coin{} when CollectorAssetId / SecondaryAssetId name no asset
